@@ -64,6 +64,51 @@ CLOSURES = [
 ]
 
 
+# ---- enumerated "shadow, then read" bodies (seed C03-b of round 4 was missed by the hand-written list):
+# a nested scope of every kind binds the name k somewhere in the body, and the CAPTURED k is read before
+# it, after it, or inside a sibling of it, under every parent shape.  A free-variable scan that lets the
+# nested binding leak (in either direction) stops capturing k, and the call then sees the call site's k.
+BINDERS = [
+    ("do-local", "do {\n  k = 1\n  return k\n}"),
+    ("do-local-from-param", "do {\n  k = x\n  return k\n}"),
+    ("nested-do", "do {\n  t8 = do {\n    k = 2\n    return k\n  }\n  return t8\n}"),
+    ("lambda-param", "(k => k)(1)"),
+    ("lambda-optional-param", "((k?) => k)(1)"),
+    ("lambda-rest-param", "((...k) => k)(1)"),
+    ("map-callback-param", "map([1], k => k)"),
+    ("via-callback-param", "([1] via (k => k))"),
+    ("do-local-function-param", "do {\n  g9 = k => k\n  return g9(1)\n}"),
+    ("curried-param", "(a9 => k => [a9, k])(0)(1)"),
+]
+BODY_SHAPES = [
+    ("list-after", "[%(B)s, k]"),
+    ("list-before", "[k, %(B)s]"),
+    ("list-around", "[k, %(B)s, k]"),
+    ("record-after", "{a: %(B)s, b: k}"),
+    ("record-shorthand-after", "{a: %(B)s, k}"),
+    ("conditional-branch", "if x > 0 then [%(B)s, k] else [k]"),
+    ("conditional-condition", "if %(B)s == 1 then k else [k]"),
+    ("operand-after", "[%(B)s] + [k]"),
+    ("callback-after", "[%(B)s] via (q9 => [q9, k])"),
+    ("do-return-after", "do {\n  t9 = %(B)s\n  return [t9, k]\n}"),
+    ("argument-after", "(z9 => [z9, k])(%(B)s)"),
+    ("inner-closure-after", "[%(B)s, (() => k)()]"),
+    ("call-argument-list", "concat([%(B)s], [k])"),
+]
+
+
+def shadow_read_closures():
+    out = []
+    for bname, b in BINDERS:
+        for sname, sh in BODY_SHAPES:
+            body = sh % {"B": b}
+            out.append(("k = 10\nF = x => " + body, ["k", "x"], ["(1)"]))
+    # the same with the closure made by a factory whose parameter is the captured k
+    for bname, b in BINDERS[:4]:
+        out.append(("k = 10\nmk = k => (x => [%s, k])\nF = mk(5)" % b, ["k", "x", "mk"], ["(1)"]))
+    return out
+
+
 def contexts(call, shadow_names):
     """the context grammar: expressions that must evaluate like the bare `call`"""
     out = [("top", call)]
@@ -153,7 +198,7 @@ def main(argv):
 
     # ---------------- context grammar: every closure x every context x argument tuples
     progs, meta = [], []
-    for defs, names, argtuples in CLOSURES:
+    for defs, names, argtuples in CLOSURES + shadow_read_closures():
         for args in argtuples:
             call = "F" + args
             ref = defs + "\n" + call
@@ -280,17 +325,17 @@ def main(argv):
     if mism:
         res.tie_broken("correspondence C04/EVAL: model and implementation disagree on %d of %d programs" % (len(mism), len(idx)),
                        "first: %r\nimpl : %s\nmodel: %s" % mism[0])
-    res.streams["CONTEXTS"] = {"closures": len(CLOSURES), "programs": len(progs), "context_violations": ctx_viol}
+    res.streams["CONTEXTS"] = {"closures": len(CLOSURES), "shadow_then_read_closures": len(shadow_read_closures()), "programs": len(progs), "context_violations": ctx_viol}
     res.streams["BINDING"] = {"programs": len(bprogs), "shapes": len(shape_lists(3 if tier == "quick" else 4))}
     res.streams["EVAL"] = {"model_compared": len(idx), "agree": agree, "skipped_unmodelled": skipped, "mismatches": len(mism)}
     res.coverage["evaluations"] = len(allp)
     res.coverage["distinct_nontrivial"] = len({(p, last(r)) for p, r in zip(allp, allr) if last(r).startswith("OK")})
-    res.coverage["rule"] = ("%d closures (capturing numbers/strings/lists/records/closures, curried, escaped from a "
+    res.coverage["rule"] = ("%d closures + %d enumerated shadow-then-read bodies (every nested binder kind x every parent shape, captured name read before/after/beside it) (capturing numbers/strings/lists/records/closures, curried, escaped from a "
                             "do-block, recursive, optional+rest parameters, shorthand and spread uses) x argument tuples x "
                             "the context grammar (top level, parameter/do-local/nested shadowing of every captured or "
                             "parameter name, via/map/reduce/where/sort_by callbacks, into, conditional); every documented "
                             "parameter list up to length %d x argument counts 0..n+3 (+spread); non-trivial = distinct "
-                            "programs that evaluate successfully" % (len(CLOSURES), 3 if tier == "quick" else 4))
+                            "programs that evaluate successfully" % (len(CLOSURES), len(shadow_read_closures()), 3 if tier == "quick" else 4))
     res.coverage["samples"] = [{"program": progs[i], "impl": last(rust[i])} for i in (0, 5, len(progs) - 1)]
     res.coverage["traces_validated_against_impl"] = agree
     return res.finish()
